@@ -150,7 +150,8 @@ func (a *orValueLoader) literal(lex lexeme.LexEvent) {
 		CompileBasic(&typ, false)
 
 		lex := a.node.BasisLexEventOfSchemaForNode()
-		name := a.rootSchema.AddUnnamedType(&typ, lex.File(), lex.Begin())
+		// The lexemes of the node are positions in this file already: no offset.
+		name := a.rootSchema.AddUnnamedType(&typ, lex.File(), 0)
 
 		a.
 			nodeTypesListConstraint().
